@@ -19,6 +19,10 @@ def hvals():
             ('date', 2020, 2, 29), ('time', 1, 2, 3, 0), ('time', 23, 59, 0, 0), ('time', 1, 2, 3, 500000), ('time', 1, 2, 3, 123456),
             ('datetime', utc, 0, 'UTC'), ('datetime', utc, 3600, 'Paris'), ('datetime', utc, -18000, 'New_York'), ('datetime', utc, 19800, 'Kolkata'),
             ('datetime', utc.replace(microsecond=250000), 0, 'UTC'), ('datetime', utc, 7200, None),
+            # the repeated hour at the end of daylight saving, both passes: only the written offset tells them apart
+            ('datetime', datetime.datetime(2020, 11, 1, 5, 30, 0), -14400, 'New_York'), ('datetime', datetime.datetime(2020, 11, 1, 6, 30, 0), -18000, 'New_York'),
+            ('datetime', datetime.datetime(2020, 10, 25, 0, 15, 0), 7200, 'Berlin'), ('datetime', datetime.datetime(2020, 10, 25, 1, 15, 0), 3600, 'Berlin'),
+            ('datetime', datetime.datetime(2021, 4, 3, 14, 45, 0), 39600, 'Lord_Howe'), ('datetime', datetime.datetime(2021, 4, 3, 15, 15, 0), 37800, 'Lord_Howe'),
             ('coord', 1.5, -2.25), ('coord', 0.0, 0.0)]
     v3 = [('na',), ('xstr', 'hex', b'\x00\xff'), ('xstr', 'b64', b'\x00\xff'), ('xstr', 'Mime', 'a:b'), ('list', (('num', 1.0), ('str', 'a'))),
           ('dict', (('a', ('num', 1.0)), ('m', ('marker',)))), ('list', ()), ('dict', ())]
